@@ -11,6 +11,10 @@ import Deb822Verif.Lemmas.CtlWrapOrder
 import Deb822Verif.Lemmas.CtlWrapRel
 import Deb822Verif.Lemmas.CtlWrapDoc
 import Deb822Verif.Lemmas.DebWrapFmtIdem
+import Deb822Verif.Lemmas.CtlWrapUploaders
+import Deb822Verif.Lemmas.DebWrapFmtFixed
+import Deb822Verif.Lemmas.CtlWrapIdem
+import Deb822Verif.Lemmas.CtlWrapReread
 /-!
 # C07 — wrap-and-sort reformatting never changes content, keeps comments, is idempotent
 
@@ -777,6 +781,203 @@ example : let f : Str → Str → Str := fun _ _ => ['x', ',', ' ', 'y']
   intro c hc
   simp only [List.head?_cons, Option.some.injEq] at hc
   subst hc; decide
+
+
+/-! ### the second pass in general; `Uploaders`; the control wrapper is idempotent -/
+
+open Ctl in
+/-- **formatter path, what the second pass hands to the formatter** (any formatter whose output
+    has no CR): the raw text of the reformatted field is the first output `f k arg` up to
+    whitespace (spaces, tabs, line feeds) at its two ends — trailing whitespace dropped, the text
+    possibly moved behind one space or one line feed (`WsEquiv`) -/
+theorem C07_fmt_second_pass (cfg : WrapCfg) (f : Str → Str → Str) (e e' : DNode) (k arg : Str)
+    (hk : entryKey e = some k) (harg : fmtArg e = some arg) (hcr : '\r' ∉ f k arg)
+    (h : entryWrap cfg (some f) e = some e') :
+    ∃ a, fmtArg e' = some a ∧ WsEquiv (f k arg) a ∧ entryKey e' = some k := by
+  obtain ⟨a, h1, h2, _, h3, _⟩ := entryWrap_fmt_second cfg f e e' k arg hk harg hcr h
+  exact ⟨a, h1, h2, h3⟩
+
+open Ctl in
+/-- **formatter path, entry-level fixed point, general form**: a formatter that returns the same
+    output for every text differing from its output by whitespace at the ends only is idempotent
+    through `Entry::wrap_and_sort` -/
+theorem C07_fmt_idempotent_general (cfg : WrapCfg) (f : Str → Str → Str) (e e' : DNode) (k arg : Str)
+    (hk : entryKey e = some k) (harg : fmtArg e = some arg) (hcr : '\r' ∉ f k arg)
+    (hst : ∀ a, WsEquiv (f k arg) a → f k a = f k arg)
+    (h : entryWrap cfg (some f) e = some e') :
+    entryWrap cfg (some f) e' = some e' :=
+  entryWrap_fmt_fixed_of cfg f e e' k arg hk harg hcr hst h
+
+open Ctl in
+/-- **the one-per-line formatter is stable**: `fmtCommaLines` (split at `','`, trim, join by
+    `",\n"`) returns its own output again, also after whitespace was removed at the ends of that
+    output and other whitespace put in front -/
+theorem C07_control_uploaders_stable (k v a : Str) (h : WsEquiv (fmtCommaLines k v) a) :
+    fmtCommaLines k a = fmtCommaLines k v := fmtCommaLines_stable k v a h
+
+open Ctl in
+/-- **the `Uploaders` field is an entry-level fixed point of the control formatter on its own
+    output**: for any entry tree named `Uploaders` whose raw text has no CR (continuation lines,
+    any layout), the second `Entry::wrap_and_sort` returns the reformatted field unchanged -/
+theorem C07_control_uploaders_idempotent (cfg : WrapCfg) (e e' : DNode) (arg : Str)
+    (hk : entryKey e = some kUploaders) (harg : fmtArg e = some arg) (hcr : '\r' ∉ arg)
+    (h : entryWrap cfg (some formatField) e = some e') :
+    entryWrap cfg (some formatField) e' = some e' :=
+  entryWrap_uploaders_fixed cfg e e' arg hk harg hcr h
+
+open Ctl in
+/-- **`Control::wrap_and_sort` is idempotent** on every well-formed control file (C03 grammar) whose
+    relationship fields are well-formed (C10 grammar; `RelFieldsOK`), indentation ≥ 1, every other
+    setting: the second application does not panic and returns the same tree, hence the same text.
+    (Numbers above `i32::MAX` in versions: finding F-C07-8, outside the model.) -/
+theorem C07_control_idempotent (cfg : WrapCfg) (d : Spec.DocS) (hwf : d.WF) (hc : IndentOK cfg)
+    (hrel : RelFieldsOK d) (root' : DNode) (h : controlWrap cfg d.tree = some root') :
+    controlWrap cfg root' = some root' :=
+  controlWrap_idem cfg d hwf hc hrel root' h
+
+/-- a control file with an `Uploaders` field over two lines, a relationship field and comments -/
+def exControl : Spec.DocS :=
+  { lead := [],
+    paras := [
+      ({ first := { key := "Package".toList, ws := [' '], v := "b".toList, nl := true, conts := [] },
+         rest := [.entry { key := "Depends".toList, ws := [' '], v := "x,".toList, nl := true,
+                           conts := [{ indent := "  ".toList, text := "y".toList, nl := true }] }] },
+       [.blank]),
+      ({ first := { key := "Source".toList, ws := [' '], v := "a".toList, nl := true, conts := [] },
+         rest := [.comment " who".toList true,
+                  .entry { key := "Uploaders".toList, ws := [' '], v := "A <a@b>,".toList, nl := true,
+                           conts := [{ indent := [' '], text := "B <c@d>, C".toList, nl := false }] }] }, [])] }
+
+example : exControl.WF ∧ IndentOK exCfg := ⟨by decide, by simp [IndentOK, exCfg]⟩
+
+example : Ctl.RelFieldsOK exControl := by
+  intro pg hpg e he hk
+  refine ⟨exDependsA, by decide, ?_⟩
+  simp only [exControl, List.mem_cons, List.not_mem_nil, or_false] at hpg
+  rcases hpg with rfl | rfl
+  · simp only [paraEntries, itemEntries, List.mem_cons, List.not_mem_nil, or_false] at he
+    rcases he with rfl | rfl
+    · exact absurd hk (by decide)
+    · decide
+  · simp only [paraEntries, itemEntries, List.mem_cons, List.not_mem_nil, or_false] at he
+    rcases he with rfl | rfl
+    · exact absurd hk (by decide)
+    · exact absurd hk (by decide)
+
+/-! ### a formatter output line that starts with `#` is written as a comment -/
+
+def exHashCfg : WrapCfg := { indentation := .spaces 4, immediateEmptyLine := false, maxLineLengthOneLiner := none }
+def exHashPara : DNode := (paragraphs (parse "Uploaders: A, #B\n".toList).tree).headD (.node .PARAGRAPH [])
+
+/-- **defect of the formatter path, closed witness (confirmed on the real code).** `Uploaders: A, #B`
+    through `Source::wrap_and_sort` / `Binary::wrap_and_sort`: the returned paragraph reports the value
+    `A,\n#B`; it prints as `Uploaders: A,\n    #B\n`; reading that text back gives the value `A,` — the
+    line `    #B` is a comment. `rebuild_value` protects only the first value token against a leading
+    `#` (`first_is_hash`); the formatter path creates new line starts (here after the comma). The
+    re-read clause of C07 fails here. -/
+theorem C07_fmt_hash_witness :
+    (Ctl.paraWrap exHashCfg exHashPara).map Node.text = some "Uploaders: A,\n    #B\n".toList
+      ∧ (Ctl.paraWrap exHashCfg exHashPara).map items = some [("Uploaders".toList, "A,\n#B".toList)]
+      ∧ (Ctl.paraWrap exHashCfg exHashPara).map (fun p' => docItems (parse p'.text).tree)
+          = some [[("Uploaders".toList, "A,".toList)]] := by
+  refine ⟨by decide +kernel, by decide +kernel, by decide +kernel⟩
+
+
+/-! ### strict re-read on the formatter path -/
+
+open Spec in
+/-- **strict re-read, any formatter.** Hypothesis: every field of the well-formed document is
+    reformatted to the node of some well-formed, fully terminated field (`EntryOut`; see
+    `entryOut_line`, `entryOut_lines`, `Ctl.entryOut_control` for when that holds). Then wrap-and-sort
+    succeeds, the printed result parses without error, the strict reader accepts it and reads back
+    exactly the content of the returned tree; the text is that of a well-formed, fully LF-terminated
+    document with one blank line after every paragraph but the last. -/
+theorem C07_fmt_reread (cfg : WrapCfg) (ele ple : Option (DNode → DNode → Bool)) (f : Str → Str → Str)
+    (d : DocS) (hwf : d.WF)
+    (hout : ∀ pg ∈ d.paras, ∀ e ∈ paraEntries pg.1, ∃ eo, EntryOut cfg (some f) e eo) :
+    ∃ root' : DNode,
+      deb822Wrap ple (some (paragraphWrap cfg ele (some f))) d.tree = some root'
+      ∧ (paragraphs root').length = d.paras.length
+      ∧ (parse root'.text).errors = []
+      ∧ (∃ t, readStrict root'.text = .ok t ∧ docItems t = docItems root')
+      ∧ ∃ d' : DocS, d'.WF ∧ DocTermAll d' ∧ root'.text = d'.str ∧ parse root'.text = ⟨d'.tree, []⟩
+          ∧ (∃ cs, d'.lead = cGaps cs)
+          ∧ (∀ pg ∈ d'.paras, pg.2 = [] ∨ ∃ cs, pg.2 = Gap.blank :: cGaps cs) := by
+  classical
+  let outE : EntryS → EntryS := fun e =>
+    if h : ∃ eo, EntryOut cfg (some f) e eo then Classical.choose h else e
+  have houtE : ∀ pg ∈ d.paras, ∀ e ∈ paraEntries pg.1, EntryOut cfg (some f) e (outE e) := by
+    intro pg hpg e he
+    have h := hout pg hpg e he
+    simp only [outE, dif_pos h]
+    exact Classical.choose_spec h
+  obtain ⟨root', d', hres, hd', hterm, htext, _, hitems, hlen, hlead, hgaps⟩ :=
+    deb822Wrap_reread_gen cfg ele ple (some f) d hwf outE houtE
+  have hparse : parse root'.text = ⟨d'.tree, []⟩ := by
+    rw [htext]; unfold parse; rw [lex_doc d' hd', parse_doc d' hd']
+  refine ⟨root', hres, hlen, by rw [hparse], ⟨d'.tree, ?_, hitems⟩, d', hd', hterm, htext, hparse, hlead, hgaps⟩
+  simp [readStrict, hparse]
+
+open Ctl Spec in
+/-- **strict re-read of the control wrapper's output.** For a well-formed control file (C03 grammar),
+    indentation ≥ 1, whose relationship fields are well-formed (C10 grammar) and whose `Uploaders`
+    fields are formatted to good lines — at least one line; every line non-empty, not starting with a
+    space or tab; **no line after the first starting with `#`** (open finding F-C07-10,
+    `C07_fmt_hash_witness`); no trailing line feed (i.e. no trailing comma in the field) —
+    `Control::wrap_and_sort` does not panic, and its printed result parses strictly and reads back
+    exactly the content the returned tree reports. -/
+theorem C07_control_reread (cfg : WrapCfg) (d : DocS) (hwf : d.WF) (hc : IndentOK cfg)
+    (hrel : RelFieldsOK d)
+    (hup : ∀ pg ∈ d.paras, ∀ e ∈ paraEntries pg.1, e.key = kUploaders →
+      ∃ L, GoodLines L ∧ fmtCommaLines kUploaders (rawText e) = Text.join ['\n'] L) :
+    ∃ root' : DNode,
+      controlWrap cfg d.tree = some root'
+      ∧ (paragraphs root').length = d.paras.length
+      ∧ (parse root'.text).errors = []
+      ∧ (∃ t, readStrict root'.text = .ok t ∧ docItems t = docItems root')
+      ∧ ∃ d' : DocS, d'.WF ∧ DocTermAll d' ∧ root'.text = d'.str ∧ parse root'.text = ⟨d'.tree, []⟩ := by
+  have hout : ∀ pg ∈ d.paras, ∀ e ∈ paraEntries pg.1, ∃ eo, EntryOut cfg (some formatField) e eo := by
+    intro pg hpg e he
+    obtain ⟨m, hm⟩ := parasTerm_each d.paras hwf.paras_term pg hpg
+    obtain ⟨h1, m', h2⟩ := paraEntries_props pg.1 m (hwf.paras_ok pg hpg).1 hm e he
+    by_cases hu : e.key = kUploaders
+    · obtain ⟨L, hL, hfl⟩ := hup pg hpg e he hu
+      exact ⟨_, entryOut_lines cfg formatField e m' h1 h2 hc L hL (by
+        rw [hu, formatField_uploaders]; exact hfl)⟩
+    · exact entryOut_control cfg e m' h1 h2 hc hu (hrel pg hpg e he)
+  obtain ⟨root', hres, hlen, herr, hstrict, d', hd', hterm, htext, hparse, _, _⟩ :=
+    C07_fmt_reread cfg none (some ctlParaLe) formatField d hwf hout
+  have hnp : (paragraphs d.tree).any paraPanics = false := by
+    rw [paragraphs_tree]
+    apply List.any_eq_false.2
+    intro x hx
+    simp only [List.mem_map] at hx
+    obtain ⟨pg, hpg, rfl⟩ := hx
+    obtain ⟨m, hm⟩ := parasTerm_each d.paras hwf.paras_term pg hpg
+    simp [paraPanics_node pg.1 m (hwf.paras_ok pg hpg).1 hm
+      (fun e he => fieldOK_of e (hrel pg hpg e he))]
+  exact ⟨root', by simp [controlWrap, hnp, hres], hlen, herr, hstrict, d', hd', hterm, htext, hparse⟩
+
+/-- the hypotheses of `C07_control_reread` hold for `exControl`: its `Uploaders` field
+    `A <a@b>,⏎ B <c@d>, C` is formatted to the three lines `A <a@b>,` / `B <c@d>,` / `C` -/
+example : ∀ pg ∈ exControl.paras, ∀ e ∈ paraEntries pg.1, e.key = Ctl.kUploaders →
+    ∃ L, GoodLines L ∧ Ctl.fmtCommaLines Ctl.kUploaders (rawText e) = Text.join ['\n'] L := by
+  intro pg hpg e he hk
+  refine ⟨["A <a@b>,".toList, "B <c@d>,".toList, "C".toList], ⟨by decide, ?_, by decide⟩, ?_⟩
+  · intro l hl
+    simp only [List.mem_cons, List.not_mem_nil, or_false] at hl
+    rcases hl with rfl | rfl | rfl
+    · exact ⟨by decide, _, _, rfl, by decide⟩
+    · exact ⟨by decide, _, _, rfl, by decide⟩
+    · exact ⟨by decide, _, _, rfl, by decide⟩
+  · simp only [exControl, List.mem_cons, List.not_mem_nil, or_false] at hpg
+    rcases hpg with rfl | rfl
+    · simp only [paraEntries, itemEntries, List.mem_cons, List.not_mem_nil, or_false] at he
+      rcases he with rfl | rfl <;> exact absurd hk (by decide)
+    · simp only [paraEntries, itemEntries, List.mem_cons, List.not_mem_nil, or_false] at he
+      rcases he with rfl | rfl
+      · exact absurd hk (by decide)
+      · decide +kernel
 
 
 end Deb822Verif.Props.C07
